@@ -643,3 +643,56 @@ def rf63(run):
     if n == 0:
         raise F.AnalysisBroken('target_machinize: no conversion lowered to a builtin found')
     return n
+
+
+# ---------------------------------------------------------------------------------------------
+# RF64: range predicates see the un-narrowed value
+# ---------------------------------------------------------------------------------------------
+
+def rf64(run):
+    import re
+    rule = 'RF64'
+    run.rule(rule, 'x86-64 target: every test intN_p / uintN_p (does the value fit the N-bit field of the encoding?) is applied to a value '
+                   'wider than N bits: an operand that has already been converted to an N-bit (or narrower) type makes the test vacuous '
+                   'and a displacement / call offset that does not fit is emitted truncated')
+    tu = run.tu('gen')
+    PRED = re.compile(r'u?int(8|16|32)_p$')
+    n = 0
+    for f in tu.func_list:
+        if not f.file.endswith('mir-gen-x86_64.c'):
+            continue
+        for x in f.walk():
+            if x['k'] != 'CallExpr' or not PRED.match(x.get('callee') or ''):
+                continue
+            bits = int(PRED.match(x['callee']).group(1))
+            a = F.call_args(x)[0]
+            while a['k'] == 'ParenExpr' or (a['k'] == 'ImplicitCastExpr'):
+                a = a['c'][0]
+            t = tu.type(a)
+            if t is None or t.kind not in ('int', 'enum', 'bool'):
+                raise F.AnalysisBroken('%s: operand type of %s not integral' % (f.name, F.src(x)[:50]))
+            run.functions_analysed.add(('gen', f.name))
+            n += 1
+            w = t.w or 0
+            if a['k'] == 'DeclRefExpr' and a.get('dk') == 'local' and w > bits:
+                # every definition of the local: an explicit cast to a type of at most N bits narrows it before the test
+                defs = [d['init'] for y in f.walk() if y['k'] == 'DeclStmt' for d in y['decls'] if d.get('d') == a.get('d') and d.get('init') is not None]
+                defs += [y['c'][1] for y in f.walk() if y['k'] == 'BinaryOperator' and y['op'] == '=' and F.strip(y['c'][0])['k'] == 'DeclRefExpr'
+                         and F.strip(y['c'][0]).get('d') == a.get('d')]
+                for dfn in defs:
+                    e = dfn
+                    while e['k'] == 'ParenExpr' or e['k'] == 'ImplicitCastExpr':
+                        e = e['c'][0]
+                    if e['k'] == 'CStyleCastExpr':
+                        ct = tu.type(e)
+                        if ct is not None and ct.kind == 'int' and (ct.w or 64) <= bits:
+                            w = ct.w
+                            t = ct
+            ok = w > bits
+            run.ob(rule, (f.name, x['l']), ok, {'site': '%s:%d %s' % (f.relfile(), x['l'], f.name), 'test': F.src(x)[:60], 'operand type': t.s})
+            if not ok:
+                run.violation(rule, f, '%s on a %d-bit value' % (x['callee'], w), '%s is applied to `%s` of type %s: the value was already '
+                              'narrowed to %d bits, so the test always succeeds and a value outside the %d-bit field is encoded truncated '
+                              '(for a call offset: the patched call jumps to a wrong address)' % (x['callee'], F.src(a)[:50], t.s, w, bits),
+                              line=x['l'])
+    return n
